@@ -19,7 +19,48 @@ from common import Check, Driver, Infra, canon_json, log
 
 
 DIALECT_FINDINGS = {("merge", "tsql"): "D29", ("merge", "athena"): "D29", ("merge", "databricks"): "D29", ("merge", "trino"): "D29",
-                    ("update", "exasol"): "D30", ("update", "sqlite"): "D30", ("update", "tsql"): "D30"}
+                    ("merge", "exasol"): "D29", ("update", "exasol"): "D30", ("update", "sqlite"): "D30", ("update", "tsql"): "D30",
+                    # CREATE VIEW v (c1, ...) AS ...: the column list is not found under these dialects (C09 finding K7)
+                    ("create_view+cols", "clickhouse"): "K7", ("create_view+cols", "tsql"): "K7"}
+# C09 classes (`Spec/Agreement.lean`, asked from the driver) under which one dialect reads a core statement differently
+DIALECT_CLASSES = {"K4": ["oracle"]}
+
+
+# bare identifiers sqlfluff's snowflake grammar reads as DATE PARTS when they are function arguments (`coalesce(m, 1)`): the argument is
+# a `date_part` token, not a column_reference, and contributes no lineage (finding K8)
+SNOWFLAKE_DATE_PARTS = {"d", "h", "m", "q", "s", "w", "y", "dd", "mm", "yy", "hh", "ms", "ns", "us", "mi", "wk", "yr", "mon", "day", "year",
+                        "month", "hour", "minute", "second", "week", "quarter"}
+
+
+def has_date_part_argument(s):
+    for n in gensql._walk(s):
+        if isinstance(n, list) and len(n) == 5 and n[0] == "func" and isinstance(n[3], list):
+            for a in n[3]:
+                if isinstance(a, list) and len(a) == 3 and a[0] == "col" and a[1] == [] and str(a[2]).lower() in SNOWFLAKE_DATE_PARTS:
+                    return True
+    return False
+
+
+def finding_key(s):
+    return "create_view+cols" if s[0] == "create_view" and s[3] else s[0]
+
+
+def dialect_finding(drv, s, d, listed, cache):
+    """id of the listed dialect finding the pair (statement, dialect) belongs to, or None"""
+    fid = DIALECT_FINDINGS.get((finding_key(s), d))
+    if fid and fid in listed:
+        return fid
+    if d == "snowflake" and "K8" in listed and has_date_part_argument(s):
+        return "K8"
+    if any(d in ds for ds in DIALECT_CLASSES.values()):
+        k = canon_json(s)
+        if k not in cache:
+            out = drv.ask1({"cmd": "shape", "stmts": [s]})["out"][0]
+            cache[k] = list(out["classes"]) if out else []
+        for c in cache[k]:
+            if d in DIALECT_CLASSES.get(c, []) and c in listed:
+                return c
+    return None
 
 
 def pairs_of(paths):
@@ -158,6 +199,7 @@ def run(chk):
     ans1 = sqlcheck.model_eval(drv, [[s] for _, s in cases])
     ans2 = sqlcheck.model_eval(drv, [[s] for _, s in cases], rev_star=1)
     outcome_cache = {}
+    dclass_cache = {}
     jobs = [(ci, d) for ci in range(len(cases)) for d in dialects]
     impl = sqlimpl.run_cases([{"sql": ans1[ci]["sql"][0], "dialect": d, "want": ("tables", "columns")} for ci, d in jobs], chunksize=16)
     st = sqlcheck.Stats()
@@ -187,6 +229,19 @@ def run(chk):
                 outcome_cache[ci] = star_outcomes(drv, s)[0]
             if agrees_modulo_order(ip, outcome_cache[ci]):
                 m2 = ip
+        # a listed dialect finding (the dialect reads this statement kind differently; identified by statement kind / class AND
+        # dialect): the statement is compared with the model only, the oracles speak about the dialect-free reading
+        dfid = dialect_finding(drv, s, d, listed, dclass_cache) if (ip != m1 and ip != m2) else None
+        if dfid is not None:
+            ok_shape = isinstance(ip, list) and isinstance(m1, list)
+            if dfid in ("D29", "D30", "K8"):
+                ok_shape = ok_shape and all(p_ in m1 for p_ in ip)            # the reported paths are a subset of the ANSI answer
+            else:
+                ok_shape = ok_shape and sorted({p_[0] for p_ in ip}) == sorted({p_[0] for p_ in m1})    # same sources, other target names
+            if ok_shape:
+                chk.known(dfid)
+                st.c["known:" + dfid] += 1
+                continue
         # the Lean specification Spec.colflow (independent of the extractor model) — covers derived tables and CTEs too
         lspec = ans1[ci]["spec"][0].get("colflow")
         if lspec is not None and isinstance(ip, list):
@@ -214,13 +269,6 @@ def run(chk):
                     chk.known("D16")
             if st.c["agree"] % 500 == 1:
                 chk.sample({"sql": ans1[ci]["sql"][0], "dialect": d, "pairs": pairs_of(ip) if isinstance(ip, list) else ip})
-            continue
-        # dialect-specific loss of UPDATE / MERGE column lineage (findings D29 / D30): the reported paths are a subset of the
-        # model's (= ANSI) answer
-        fid = DIALECT_FINDINGS.get((s[0], d))
-        if fid and fid in listed and isinstance(ip, list) and isinstance(m1, list) and all(p_ in m1 for p_ in ip):
-            chk.known(fid)
-            st.c["known:" + fid] += 1
             continue
         st.c["impl!=model"] += 1
         if first is None:
